@@ -58,7 +58,9 @@ RULE = ("histories of 8-60 pick/done/advance steps over n in {0,1,2,3,4,5,8} rea
         "(clock starting at 1 h, or at 1 ns..10 s in a quarter of the random cases; advances from 0 ns to 8000 s: same-instant, ns, ms, around the 1 s force-pick bound, around the 6.93 s "
         "half-life, the 60 s log interval, w denormal/0), scripted Intn draws, grpc codes -1/-2/0..16 with "
         "per-connection failure profiles, every combination of the DoneInfo flags BytesSent/BytesReceived/Trailer/ServerLoad x "
-        "acceptable/unacceptable status, an answering-with-errors family, a few double-called done funcs; ReadySCs maps in which several SubConns share one "
+        "acceptable/unacceptable status, every status message variant (verif, context deadline exceeded via "
+        "status.FromContextError, deadline, empty, context canceled, transport is closing, long unicode) with every code, "
+        "an answering-with-errors family, a hung-backend family (all calls end in DeadlineExceeded), a few double-called done funcs; ReadySCs maps in which several SubConns share one "
         "Address.Addr (exact duplicates, or differing in ServerName / Attributes) for N = 2..8 in about half of the cases, "
         "incl. a sweep family that hands every position to choose; directed families: score exactly at the "
         "500 threshold with >= 3 conns, 2-conn force-pick boundary (1 s +- 1 ns), 500+ consecutive failing "
@@ -466,11 +468,38 @@ def _multi_case(rng):
     return {"multi": True, "start": START, "ops": ops}
 
 
+def _hung_backend_case(rng):
+    """A hung backend: every call to it ends with the caller's deadline firing (DeadlineExceeded, mostly the
+    status.FromContextError message), the timeout apart; the other connections answer."""
+    n = rng.choice([1, 2, 2, 3, 4])
+    hung = rng.randrange(n)
+    timeout = rng.choice([500 * MS, S, 2 * S, 5 * S])
+    ops = []
+    np_ = 0
+    if rng.random() < 0.6:          # the backend worked before it hung
+        for _ in range(rng.randint(1, 3)):
+            ops += [{"op": "pick", "draws": _draws(rng, n)}, {"op": "adv", "dt": rng.randint(1, 30) * MS},
+                    {"op": "done", "k": np_, "code": -1, "flags": 3}]
+            np_ += 1
+    for _ in range(rng.randint(4, 16)):
+        ops.append({"op": "pick", "draws": _draws(rng, n)})
+        ops.append({"op": "adv", "dt": timeout})
+        codes = [(4 if i == hung else rng.choice(OK_CODES)) for i in range(n)]
+        ops.append({"op": "done", "k": np_, "code": codes[0], "codes": codes, "flags": rng.choice([0, 1, 1, 3]),
+                    "msg": rng.choice([1, 1, 1, 2, 3, 0, 6])})
+        np_ += 1
+    case = {"n": n, "start": START, "ops": ops}
+    case.update(_addr_layout(rng, n))
+    return case
+
+
 def _flag_pass(rng, case):
     """every flag combination x acceptable/unacceptable codes on the completions that do not fix their flags"""
     for op in case.get("ops", []):
         if op["op"] == "done" and "flags" not in op:
             op["flags"] = rng.choice([0, 0, 3, 3, 7, 15] + list(range(16)))
+        if op["op"] == "done" and "msg" not in op:
+            op["msg"] = rng.choice([0, 1, 1, 2, 2, 3, 4, 5, 6])      # every message with every code
     return case
 
 
@@ -488,8 +517,10 @@ def _generate(rng, tier, n):
             cases.append(_sweep_case(rng))
         elif r < 0.67:
             cases.append(_answer_error_case(rng))
-        elif r < 0.75:
+        elif r < 0.73:
             cases.append(_multi_case(rng))
+        elif r < 0.79:
+            cases.append(_hung_backend_case(rng))
         elif r < 0.77:
             cases.append(_threshold_case(rng))
         elif r < 0.9:
@@ -516,6 +547,7 @@ def search(rng, problems):
         out.append(_sweep_case(rng))
         out.append(_answer_error_case(rng))
         out.append(_multi_case(rng))
+        out.append(_hung_backend_case(rng))
     out.append(_slow_decay_case(rng))
     for c in out:
         _flag_pass(rng, c)
@@ -575,7 +607,7 @@ def _encode_multi(case, obs):
                 m = "MPick %s %s" % (cnat(op["p"]), clist([cZ(d) for d in op.get("draws", [])]))
             elif k == "done":
                 code = 2 if op["code"] == -2 else op["code"]
-                m = "MDone %s %s %s %s" % (cnat(op["p"]), cnat(op["k"]), cZ(code), cZ(op.get("flags", 0)))
+                m = "MDone %s %s %s %s %s" % (cnat(op["p"]), cnat(op["k"]), cZ(code), cZ(op.get("flags", 0)), cnat(op.get("msg", 0)))
             else:
                 m = "MAdv %s" % cZ(op["dt"])
             if len(cur) == len(prev):
@@ -611,7 +643,7 @@ def encode(case, obs):
             code = st.get("code", op.get("code", -1))
             if code == -2:
                 code = 2        # a non-status error has status.Code Unknown
-            x = "XDone %s %s %s" % (cnat(op["k"]), cZ(code), cZ(op.get("flags", 0)))
+            x = "XDone %s %s %s %s" % (cnat(op["k"]), cZ(code), cZ(op.get("flags", 0)), cnat(op.get("msg", 0)))
         else:
             x = "XAdv %s" % cZ(op["dt"])
         o = "(mkobs %s %s %s %s %s %s %s %s %s %s %s)" % (
@@ -677,6 +709,7 @@ def bucket(case, obs):
                 out.append("done:twice")
             called.add(op["k"])
             out.append("done:flags=%d:%s" % (op.get("flags", 0), "fail" if st.get("code") in FAIL_CODES else "ok"))
+            out.append("done:code=%s:msg=%d" % (st.get("code"), op.get("msg", 0)))
             w = _w(st["wbits"])
             out.append("w:" + ("1" if w == 1.0 else "0" if w == 0.0 else "<1e-300" if w < 1e-300 else "<.5" if w < 0.5 else "<1"))
         if st["conns"]:
